@@ -50,6 +50,7 @@ PLANS = {
             ("runsim", "plain", "process", 8000, 150000, ("C11",))],      # TeamCity output over forked children: a test the parent closes too early shows up as a child event the parent never recorded
 }
 # properties whose statement contains a memory-safety / no-crash / no-hang clause: a crash class is attributed to them
+HANG_CLAUSE = {"C05", "C10", "C11"}      # "returns ...", "never leaves the detector's lock held", "instead of hanging": a workload that never comes back is a violation of these
 CRASH_CLAUSE = {"C01", "C05", "C10", "C11", "C14", "C15", "C17", "C18"}      # C15: "they return NULL" / "every other allocation succeeds" - a crash on a designated or failing allocation is neither
 
 COMPONENTS = {
@@ -445,6 +446,16 @@ def check(prop, tier):
                             rcs.append(pp.returncode)
                         except subprocess.TimeoutExpired:
                             rcs.append("hang")
+                    if rcs == ["hang", "hang"] and c["rc"] == -9 and prop in HANG_CLAUSE and os.path.exists(raw):
+                        # every worker had to be killed in its warm-up and a fresh process given run 0 does not come back either, twice: the library hangs
+                        # on the first workload of a property whose statement excludes that (a lock left held, a wait that never ends)
+                        cls = "crash|hang|startup"
+                        dst = os.path.join(replay_dir, "%s_%s_%s_%s_s%d_startup_hang.json" % (prop, engine, variant, profile, seed))
+                        d = json.load(open(raw)); d["property"] = prop; d["class"] = cls; d["oracle"] = "crash"; d["detail"] = cls + ": every worker hangs while the engine runs its first workload, before run 0"
+                        json.dump(d, open(dst, "w"))
+                        failed, classes, crash, out = fresh_replay(dst, prop)
+                        if crash == "crash|hang":
+                            violations.append({"class": cls, "replay": dst, "detail": d["detail"]}); continue
                     if len(set(rcs)) == 1 and rcs[0] == c["rc"] and (rcs[0] == 77 or (isinstance(rcs[0], int) and rcs[0] < 0)) and os.path.exists(raw):
                         cls = ("crash|sanitizer" if rcs[0] == 77 else "crash|signal%d" % (-rcs[0])) + "|startup"
                         dst = os.path.join(replay_dir, "%s_%s_%s_%s_s%d_startup_crash.json" % (prop, engine, variant, profile, seed))
